@@ -15,6 +15,7 @@ runs (per-stage in/out streams from `-I`), not proved.
 import AiuVerif.Model.Conserve
 import AiuVerif.Props.C03
 import AiuVerif.Gen.Sites
+import AiuVerif.Lemmas.Sort
 
 namespace AiuVerif.C01
 open AiuVerif.Conserve RS
@@ -132,6 +133,39 @@ theorem default_keeps_all (s : Slice) (h1 : s.durPos = true) (h2 : s.inLimit = t
     (h3 : s.filtered = false) (h4 : s.isPrep = false) (h5 : s.dropped = false) :
     removedBy ⟨true, false, false, none⟩ s = false := by
   simp [removedBy, h1, h2, h3, h4, h5]
+
+/-! ### class contracts proved for stage models that are themselves tied to the real code
+
+`sortStage` is the model of `sort_events` + EventSortingContext (correspondence: C08's check);
+`BStage.privBarrier []` is `pipeline_barrier` (C03's check).  For these the pass-class contract is
+a theorem, not an observation. -/
+
+/-- **`sort_events` is pass class**, per-lane or global, for every key configuration. -/
+theorem sort_is_pass (uid : Sort.SEv → Option Nat) (revs : List Int) (g : Bool) :
+    PassClass uid (Sort.sortStage revs g) := by
+  intro xs
+  exact (Sort.sort_batch_perm revs g xs).filterMap uid
+
+/-- **`pipeline_barrier` is pass class.** -/
+theorem barrier_is_pass (uid : α → Option Nat) : PassClass uid (BStage.privBarrier ([] : List α)) := by
+  intro xs
+  rw [BStage.privBarrier_batch]
+  simp
+
+/-- the four sorts and four barriers of the real pipeline cannot lose a slice, wherever they sit -/
+example (uid : Sort.SEv → Option Nat) (input : List Sort.SEv) :
+    (sliceUids uid (run [Sort.sortStage [1, -1] false, BStage.privBarrier [],
+        Sort.sortStage [1] false, BStage.privBarrier [], Sort.sortStage [1, -1] true] input)).Perm
+      (sliceUids uid input) := by
+  apply all_pass_nothing_lost
+  intro st hst
+  simp only [List.mem_cons, List.mem_nil_iff, or_false] at hst
+  rcases hst with rfl | rfl | rfl | rfl | rfl
+  · exact sort_is_pass uid _ _
+  · exact barrier_is_pass uid
+  · exact sort_is_pass uid _ _
+  · exact barrier_is_pass uid
+  · exact sort_is_pass uid _ _
 
 /-! ### non-vacuity: a holder, a filter and a duplicating-of-nonslices stage -/
 def holdAll : RS (Option Nat) :=
